@@ -57,9 +57,16 @@ def run(chk):
         if not os.path.exists(path):
             chk.unknown("C04.R1", f"optimum/quanto/library/ext/{rel}", "native kernel source vanished")
             continue
-        res, checks = native.analyse_file(path)
-        n_native += 1
         site = f"optimum/quanto/library/ext/{rel}"
+        n_native += 1
+        try:
+            res, checks = native.analyse_file(path)
+        except AnalysisError as e:
+            chk.unknown("C04.R1", site, f"{rel}: {e}")
+            res, checks = None, None
+        if res is None:
+            _contiguity_guard(chk, path, rel, site)
+            continue
         chk.require("C04.R1", site, set(res) == {2, 4}, f"{rel}: switch(bits) routes {sorted(res)}", rel, "native routing", "unpack(t, bits) for an unrouted width")
         for bits, (fname, fl) in res.items():
             ok_name = str(bits) in fname
@@ -69,6 +76,7 @@ def run(chk):
             chk.require("C04.R1", site, ok, f"{rel} {fname}: fields {[(hex(m), s, k) for m, s, k in fl]} == python fallback {[(hex(m), s, k) for m, s, k in (want or [])]}", rel, f"native field table {bits}-bit",
                         f"every byte on the device using this kernel (bits={bits}): the compiled route disagrees with the fallback")
         chk.require("C04.R1", site, checks["uint8_check"] and checks["default_throws"], f"{rel}: input dtype checked (uint8) and unknown widths rejected", rel, "native input checks", "a non-uint8 tensor or bits=8")
+        _contiguity_guard(chk, path, rel, site)
     chk.floor("C04.R1", n_native, 3, "native kernel sources analysed")
     # ---- R2 / R3 row mode
     Rmax = 64 if chk.tier == "quick" else 1024
@@ -140,6 +148,16 @@ def run(chk):
     packed_tensor_rules(chk)
     router_rules(chk)
     chk.assume("a compiled kernel matches its source (sources are matched, not compiled)", "torch's bit operators on uint8 and slicing/cat along dim 0", "values fit in `bits` bits (precondition of the packer, established by the clamp of the affine quantizer: C02.R1)")
+
+
+def _contiguity_guard(chk, path, rel, site):
+    """A kernel that walks raw storage must refuse (or normalise) a strided input: tensor-level operators follow the strides by themselves."""
+    import re as _re
+    src_ = _re.sub(r"//[^\n]*|/\*.*?\*/", "", open(path, encoding="utf-8", errors="replace").read(), flags=_re.S)
+    raw = bool(_re.search(r"\bdata_ptr\b|\bcontents\]|getMTLBufferStorage|\.storage\(\)", src_))
+    guarded = bool(_re.search(r"is_contiguous\s*\(|\.contiguous\s*\(", src_))
+    chk.require("C04.R1", site, (not raw) or guarded, f"{rel}: raw storage access = {raw}, contiguity checked or enforced = {guarded}", rel, "raw storage read without a contiguity guard",
+                "a non-contiguous byte tensor (x.t(), x[:, 2:7], x[::3]) given to the compiled kernel: bytes are read in storage order, the result differs from the python fallback")
 
 
 def packed_tensor_rules(chk):
